@@ -1,4 +1,6 @@
+#[macro_use]
 pub mod engine;
+pub mod drive;
 pub mod gen;
 pub mod model;
 pub mod props;
